@@ -348,6 +348,14 @@ func runC17(t *testing.T, scAny any, trace bool) *Outcome {
 						if !cc.answered && adminStarted.Load() == 0 {
 							simrt.Probe("connection_refused_service_at_limit")
 						}
+						// a registered connection is not reaped less than IdleTimeout after the server has read a call from
+						// it: the call is read within milliseconds of being sent, a reaper pass that had already listed the
+						// connection closes it within milliseconds too, so a close that comes 50 ms or more after the send
+						// and well before send + IdleTimeout belongs to a pass that started while the call was being served
+						if dt := now() - sentAt; cc.answered && adminStarted.Load() == 0 && idleChangedAt.Load() == 0 && effIdle >= 200*time.Millisecond &&
+							dt >= 50*time.Millisecond && dt < effIdle-20*time.Millisecond && cl.Conn.PeerClosed() {
+							o.Vio("C17.connection-reaped-while-serving", "op="+stp.Op, "client %d step %d: the server closed the connection %v after a %s call had been sent on it, without answering, although IdleTimeout is %v (the connection was not idle that long: a call had just been read from it)", ci, si, dt, stp.Op, effIdle)
+						}
 						// a connection that was being served and active is not closed without reason
 						if cc.answered && adminStarted.Load() == 0 && idleChangedAt.Load() == 0 && maxStall == 0 && sentAt-cc.lastAct < effIdle/2 && cc.prevGap < effIdle/2 && sentAt-cc.lastAct < 10*time.Second && effIdle >= 100*time.Millisecond {
 							// (below 100 ms the scheduler's injected delays - up to 2 ms per unlock - can by themselves
@@ -659,6 +667,19 @@ func genC17(r *simrt.Rand, tier string) any {
 			op = []string{"close", "unexport"}[r.Int(2)]
 		}
 		sc.Admins = [][]C17Admin{{{AtMs: sc.Clients[ci].StartMs, Op: op}}}
+	}
+	if r.Pct(10) {
+		// slow-request-after-a-quiet-spell motif: a connection that has been answered stays silent for most of
+		// IdleTimeout, then sends a call that the backend holds up for longer than one reaper interval but for
+		// less than IdleTimeout: the connection is not idle (a call has just been read from it) and must be
+		// answered, not reaped
+		sc.IdleNs = []int64{1e9, 5e9}[r.Int(2)]
+		unit := int(sc.IdleNs / 1e6) // ms
+		sc.MaxConns = 2 + r.Int(3)
+		sc.Allowed, sc.AcceptErrs, sc.Admins = nil, nil, nil
+		sc.Clients = []C17Client{{StartMs: 0, Addr: "10.0.0.1:600", Steps: []C17Step{{Op: "getattr"}, {Op: "idle", Ms: unit * []int{60, 80, 95}[r.Int(3)] / 100}, {Op: "getattr"}, {Op: "null"}}},
+			{StartMs: 50, Addr: "10.0.0.2:601", Steps: []C17Step{{Op: "null"}, {Op: "idle", Ms: 30}, {Op: "close"}}}}
+		sc.Stalls = []simfs.Fault{{Op: "Lstat", Nth: 2 + r.Int(4), Kind: "stall", Stall: time.Duration(unit*6/10) * time.Millisecond}}
 	}
 	if sc.Export && r.Pct(15) {
 		// concurrent-shutdown motif: a request is held up in the backend (well inside the 5 s stop grace)
